@@ -12,7 +12,8 @@ Definition H_of (t : htab) (p : list N) : N := match hlookup t p with Some d => 
 (* pre-images the model queries for an operation *)
 Definition preimages (o : op) : list (list N) :=
   match o with
-  | OVec f _ => [be_bytes 32 f]
+  | OVec f _ | OVecW f _ _ => [be_bytes 32 f]
+  | OCell _ _ _ _ _ => []
   | OMap f _ _ mo =>
     let kb := match mo with MInsert kb _ | MGet kb | MRemove kb | MTryInsert kb _ => kb end in
     [map_preimage kb f]
@@ -75,3 +76,14 @@ Definition fid (t : htab) (name : list N) : N := field_id (H_of t) name.
 Definition judge (t : htab) (names : list (list N)) (ops : list op) (obs : list (list N)) (reverted : bool) : list N :=
   if existsb (fun n => negb (is_some (hlookup t (field_preimage n)))) names then [7]
   else run t [] sstate0 ops obs reverted.
+
+(* with initialised storage: the slots the compiler emits for a struct-typed storage field and the
+   corresponding values of its fields (field id, word offset, words) *)
+Definition judge_init (t : htab) (names : list (list N)) (init : store) (cells : list (N * N * list N))
+           (ops : list op) (obs : list (list N)) (reverted : bool) : list N :=
+  if existsb (fun n => negb (is_some (hlookup t (field_preimage n)))) names then [7]
+  else
+    let st := {| s_vec := s_vec sstate0; s_map := s_map sstate0; s_bytes := s_bytes sstate0; s_vecw := s_vecw sstate0;
+                 s_cell := fun f o => match find (fun c => N.eqb (fst (fst c)) f && N.eqb (snd (fst c)) o) cells with
+                                      | Some c => Some (snd c) | None => None end |} in
+    run t init st ops obs reverted.
